@@ -47,10 +47,16 @@ def draw_shape(draw):
         return ["u", w]
     if k <= 6:
         return ["s", draw(INT(1, 8))]
-    if k == 7:
+    if k == 7 and draw(BOOL):
         w = draw(INT(1, 3))
         vals = sorted(set(draw(INT(0, (1 << w) - 1)) for _ in range(draw(INT(1, 4)))))
         return ["enum", w, vals]
+    if k == 7:
+        # an aggregate CLASS with per-field defaults: a member without init= takes its initial value from them
+        fields = [[f"g{i}", draw(INT(1, 3)), draw(INT(0, 7))] for i in range(draw(INT(1, 3)))]
+        for f in fields:
+            f[2] &= (1 << f[1]) - 1
+        return ["structcls", fields]
     fields = []
     for i in range(draw(INT(1, 3))):
         fields.append([f"f{i}", draw(INT(0, 4)) if draw(BOOL) else draw(INT(1, 4)), False])
@@ -67,6 +73,14 @@ def shape_width(sh):
     return sum(f[1] for f in sh[1])
 
 
+def structcls_default(sh):
+    raw, off = 0, 0
+    for name, w, dv in sh[1]:
+        raw |= dv << off
+        off += w
+    return raw
+
+
 def shape_signed(sh):
     return sh[0] == "s"
 
@@ -75,6 +89,8 @@ def draw_init(draw, sh):
     """Raw bit pattern of the initial value."""
     if sh[0] == "enum":
         return PICK(draw, sh[2]) if draw(BOOL) else sh[2][0]
+    if sh[0] == "structcls":
+        return structcls_default(sh)        # no init= is given for these members
     w = shape_width(sh)
     if w == 0 or draw(INT(0, 2)) == 0:
         return 0
@@ -166,6 +182,11 @@ class Builder:
             for v in sh[2]:
                 ns[f"M{v}"] = v
             r = aenum.EnumType(f"E{len(self.cache)}", (aenum.Enum,), ns, shape=unsigned(sh[1]))
+        elif sh[0] == "structcls":
+            ns = {"__annotations__": {f[0]: unsigned(f[1]) for f in sh[1]}}
+            for f in sh[1]:
+                ns[f[0]] = f[2]
+            r = type(f"SC{len(self.cache)}", (data.Struct,), ns)
         else:
             r = data.StructLayout({f[0]: (signed(f[1]) if f[2] else unsigned(f[1])) for f in sh[1]})
         self.cache[key] = r
@@ -178,6 +199,8 @@ class Builder:
             return raw - (1 << sh[1]) if raw >> (sh[1] - 1) else raw
         if sh[0] == "enum":
             return self.shape(sh)(raw)
+        if sh[0] == "structcls":
+            return None
         out, off = {}, 0
         for name, w, s in sh[1]:
             v = (raw >> off) & ((1 << w) - 1)
@@ -191,7 +214,10 @@ class Builder:
         F = In if m["flow"] == "in" else Out
         if "port" in m:
             sh = m["port"]["shape"]
-            mem = F(self.shape(sh), init=self.init(sh, m["port"]["init"]))
+            if sh[0] == "structcls":
+                mem = F(self.shape(sh))                 # initial value comes from the class defaults
+            else:
+                mem = F(self.shape(sh), init=self.init(sh, m["port"]["init"]))
         else:
             mem = F(self.sig(m["sig"]).flip() if m.get("pre") else self.sig(m["sig"]))
         if m["dims"]:
@@ -324,6 +350,7 @@ def algebra_body(ctx, case):
     if has_dims(sd): keys.append("alg:dims")
     if has_sig_dims(sd): keys.append("alg:sig-dims")
     if any(p["shape"][0] in ("enum", "struct") for _, _, p in leaves): keys.append("alg:aggregate-shape")
+    if any(p["shape"][0] == "structcls" for _, _, p in leaves): keys.append("alg:struct-class-with-defaults")
     if any(d == 0 for m in sd["m"] for d in m["dims"]): keys.append("alg:zero-dim")
     ctx.note(case, (sig_depth(sd) >= 2 and has_in_nested(sd)) or has_dims(sd), *keys, evals=1)
 
@@ -573,7 +600,7 @@ def connect_body(ctx, case):
         try:
             obs1 = run_connect(case, objs, owners, const_out, list(range(case["k"])))
         except wiring.ConnectionError as e:
-            if not any_out and leaves and "Only input to input" in str(e):
+            if not any(v is not None for v in owners.values()) and "Only input to input" in str(e):
                 # documented diagnostic: several interfaces, inputs only
                 ctx.note(case, False, "conn:inputs-only-diagnostic")
                 return
@@ -732,5 +759,5 @@ def parts(tier):
 
 REQUIRED = ["alg:depth2", "alg:in-nested", "alg:dims", "alg:aggregate-shape", "alg:zero-dim",
             "conn:style0", "conn:style1", "conn:style2", "conn:k3", "conn:in-nested", "conn:dims", "conn:constant",
-            "conn:signedness-differs", "conn:unowned-leaf", "conn:permuted", "alg:member-is-flipped-signature",
+            "conn:signedness-differs", "conn:unowned-leaf", "conn:permuted", "alg:member-is-flipped-signature", "alg:struct-class-with-defaults",
             "conn:member-is-flipped-signature", "corrupt:at-index>=1"] + ["corrupt:" + c for c in CORRUPTIONS]
